@@ -1,8 +1,8 @@
 \* generated by props/_handshake.py (table CFGS) -- do not edit by hand
 SPECIFICATION Spec
 CONSTANTS
-  Nodes <- NodesM
-  Conns <- ConnsM
+  Nodes = {"A", "B", "M", "O", "D", "V"}
+  Conns = {"c1", "c2", "c3", "c4", "c8", "m1", "m2", "o1", "o2", "o4", "o8", "a1", "d1", "d2", "v1"}
   Cl <- ClM
   Sv <- SvM
   Eph <- EphM
